@@ -23,7 +23,8 @@ EXTENDS Integers, Sequences, FiniteSets, TLC, Ops
 CONSTANTS Names, MaxOps, Cap, RingSize, WatchFile
 
 VARIABLES present,     \* entry names that exist in D
-          fmark,       \* the kernel mark on file D/x exists (WatchFile)
+          fmark,       \* the entry name whose file carries the kernel mark of the watch on D/x ("" none, "*" moved out of D)
+          w2end,       \* ghost: the end of that watch (IN_MOVE_SELF / IN_DELETE_SELF) has been queued
           cookie,      \* kernel rename cookie counter
           kq,          \* kernel queue of records [wd, m, n, ck]   (wd 1 = D, wd 2 = D/x, 0 = none)
           nops,
@@ -34,12 +35,12 @@ VARIABLES present,     \* entry names that exist in D
           evq,         \* Events channel buffer
           want,        \* ghost: translation of every record queued for a live watch, in order
           got          \* ghost: what the consumer received
-vars == <<present, fmark, cookie, kq, nops, tab, buf, out, ring, ridx, evq, want, got>>
+vars == <<present, fmark, w2end, cookie, kq, nops, tab, buf, out, ring, ridx, evq, want, got>>
 
 NoEv == [name |-> <<>>, op |-> 0, from |-> <<>>]
 WatchPath(wd) == IF wd = 1 THEN <<"D">> ELSE <<"D", "x">>
 
-Init == /\ present = {"x"} /\ fmark = WatchFile /\ cookie = 0 /\ kq = <<>> /\ nops = 0
+Init == /\ present = {"x"} /\ fmark = (IF WatchFile THEN "x" ELSE "") /\ w2end = FALSE /\ cookie = 0 /\ kq = <<>> /\ nops = 0
         /\ tab = IF WatchFile THEN {1, 2} ELSE {1}
         /\ buf = <<>> /\ out = NoEv /\ ring = [i \in 1..RingSize |-> [ck |-> 0, path |-> <<>>]] /\ ridx = 1
         /\ evq = <<>> /\ want = <<>> /\ got = <<>>
@@ -58,23 +59,27 @@ Xlate(r, ckmap) ==
    from |-> IF HasBit(r.m, IN_MOVED_TO) /\ r.ck # 0 /\ r.ck \in DOMAIN ckmap THEN ckmap[r.ck] ELSE <<>>]
 
 \* ghost bookkeeping: which records count (merged ones do not: they were never queued)
-Account(q, rs, w) ==
-  LET RECURSIVE Go(_, _, _)
-      Go(qq, rr, ww) == IF rr = <<>> THEN ww
+Account(q, rs, w, e) ==
+  LET RECURSIVE Go(_, _, _, _)
+      Go(qq, rr, ww, ee) ==
+                        IF rr = <<>> THEN [w |-> ww, e |-> ee]
                         ELSE LET r == Head(rr)
                                  merged == qq # <<>> /\ qq[Len(qq)].wd = r.wd /\ qq[Len(qq)].m = r.m /\ qq[Len(qq)].n = r.n
                                  house == HasBit(r.m, IN_IGNORED) \/ InotifyOpOf(r.m) = 0
                                  \* a DELETE_SELF of D/x while D is listed is reported by D's IN_DELETE only
                                  dup == r.wd = 2 /\ HasBit(r.m, IN_DELETE_SELF)
-                             IN Go(Enq(qq, r), Tail(rr), IF merged \/ house \/ dup THEN ww ELSE Append(ww, r))
-  IN Go(q, rs, w)
+                                 \* records of the D/x watch behind its own end are skipped by the reader (the watch is gone by then)
+                                 late == r.wd = 2 /\ ee
+                                 ends == r.wd = 2 /\ (HasBit(r.m, IN_MOVE_SELF) \/ HasBit(r.m, IN_DELETE_SELF))
+                             IN Go(Enq(qq, r), Tail(rr), IF merged \/ house \/ dup \/ late THEN ww ELSE Append(ww, r), ee \/ ends)
+  IN Go(q, rs, w, e)
 
 FsStep(rs) == /\ nops < MaxOps /\ nops' = nops + 1
               /\ kq' = EnqAll(kq, rs)
-              /\ want' = Account(kq, rs, want)
+              /\ want' = Account(kq, rs, want, w2end).w /\ w2end' = Account(kq, rs, want, w2end).e
               /\ UNCHANGED <<tab, buf, out, ring, ridx, evq, got>>
 
-OnFile(n, m) == IF n = "x" /\ fmark THEN <<Rec(2, m, "", 0)>> ELSE <<>>
+OnFile(n, m) == IF fmark = n THEN <<Rec(2, m, "", 0)>> ELSE <<>>
 Create(n) == /\ n \notin present /\ present' = present \cup {n} /\ UNCHANGED <<fmark, cookie>>
              /\ FsStep(<<Rec(1, IN_CREATE, n, 0)>>)
 Write(n)  == /\ n \in present /\ UNCHANGED <<present, fmark, cookie>>
@@ -82,16 +87,17 @@ Write(n)  == /\ n \in present /\ UNCHANGED <<present, fmark, cookie>>
 Chmod(n)  == /\ n \in present /\ UNCHANGED <<present, fmark, cookie>>
              /\ FsStep(<<Rec(1, IN_ATTRIB, n, 0)>> \o OnFile(n, IN_ATTRIB))
 Unlink(n) == /\ n \in present /\ present' = present \ {n} /\ UNCHANGED cookie
-             /\ fmark' = (fmark /\ n # "x")
-             /\ FsStep((IF n = "x" /\ fmark THEN <<Rec(2, IN_ATTRIB, "", 0), Rec(2, IN_DELETE_SELF, "", 0), Rec(2, IN_IGNORED, "", 0)>> ELSE <<>>)
+             /\ fmark' = (IF fmark = n THEN "" ELSE fmark)
+             /\ FsStep((IF fmark = n THEN <<Rec(2, IN_ATTRIB, "", 0), Rec(2, IN_DELETE_SELF, "", 0), Rec(2, IN_IGNORED, "", 0)>> ELSE <<>>)
                        \o <<Rec(1, IN_DELETE, n, 0)>>)
 Rename(a, b) == /\ a \in present /\ a # b /\ present' = (present \ {a}) \cup {b} /\ cookie' = cookie + 1
-                /\ fmark' = (fmark /\ b # "x" /\ a # "x")         \* an overwritten x is released; a renamed x is no longer followed here
+                \* the mark follows the renamed file (until the reader gets to its IN_MOVE_SELF); an overwritten marked file is released
+                /\ fmark' = (IF fmark = a THEN b ELSE IF fmark = b THEN "" ELSE fmark)
                 /\ FsStep(<<Rec(1, IN_MOVED_FROM, a, cookie + 1), Rec(1, IN_MOVED_TO, b, cookie + 1)>>
-                          \o (IF b = "x" /\ fmark /\ b \in present THEN <<Rec(2, IN_ATTRIB, "", 0)>> ELSE <<>>)
+                          \o (IF fmark = b /\ b \in present THEN <<Rec(2, IN_ATTRIB, "", 0)>> ELSE <<>>)
                           \o OnFile(a, IN_MOVE_SELF)
-                          \o (IF b = "x" /\ fmark /\ b \in present THEN <<Rec(2, IN_DELETE_SELF, "", 0), Rec(2, IN_IGNORED, "", 0)>> ELSE <<>>))
-MoveOut(a) == /\ a \in present /\ present' = present \ {a} /\ cookie' = cookie + 1 /\ fmark' = (fmark /\ a # "x")
+                          \o (IF fmark = b /\ b \in present THEN <<Rec(2, IN_DELETE_SELF, "", 0), Rec(2, IN_IGNORED, "", 0)>> ELSE <<>>))
+MoveOut(a) == /\ a \in present /\ present' = present \ {a} /\ cookie' = cookie + 1 /\ fmark' = (IF fmark = a THEN "*" ELSE fmark)
               /\ FsStep(<<Rec(1, IN_MOVED_FROM, a, cookie + 1)>> \o OnFile(a, IN_MOVE_SELF))
 MoveIn(b)  == /\ b \notin present /\ present' = present \cup {b} /\ cookie' = cookie + 1 /\ UNCHANGED fmark
               /\ FsStep(<<Rec(1, IN_MOVED_TO, b, cookie + 1)>>)
@@ -101,7 +107,7 @@ Fs == \E a \in Names : Create(a) \/ Write(a) \/ Chmod(a) \/ Unlink(a) \/ MoveOut
 \* Reader
 Read == /\ buf = <<>> /\ out = NoEv /\ kq # <<>>
         /\ \E k \in 1..Len(kq) : buf' = SubSeq(kq, 1, k) /\ kq' = SubSeq(kq, k + 1, Len(kq))
-        /\ UNCHANGED <<present, fmark, cookie, nops, tab, out, ring, ridx, evq, want, got>>
+        /\ UNCHANGED <<present, fmark, w2end, cookie, nops, tab, out, ring, ridx, evq, want, got>>
 
 \* newEvent: mask translation and the cookie ring
 Lookup(ck) == LET S == {i \in 1..RingSize : ring[i].ck = ck} IN
@@ -126,16 +132,20 @@ Handle ==
         /\ out' = IF skip \/ op = 0 THEN NoEv ELSE [name |-> name, op |-> op, from |-> from]
         /\ IF stores THEN ring' = [ring EXCEPT ![ridx] = [ck |-> r.ck, path |-> name]] /\ ridx' = IF ridx = RingSize THEN 1 ELSE ridx + 1
                      ELSE UNCHANGED <<ring, ridx>>
-  /\ UNCHANGED <<present, fmark, cookie, kq, nops, evq, want, got>>
+        \* IN_MOVE_SELF of a listed watch: w.remove(watch.path) also asks the kernel to drop the watch -> IN_IGNORED
+        /\ IF live /\ mself /\ fmark # ""
+           THEN kq' = Enq(kq, Rec(2, IN_IGNORED, "", 0)) /\ fmark' = ""
+           ELSE UNCHANGED <<kq, fmark>>
+  /\ UNCHANGED <<present, w2end, cookie, nops, evq, want, got>>
 
 Send == /\ out # NoEv /\ Len(evq) < Cap
         /\ evq' = Append(evq, out) /\ out' = NoEv
-        /\ UNCHANGED <<present, fmark, cookie, kq, nops, tab, buf, ring, ridx, want, got>>
+        /\ UNCHANGED <<present, fmark, w2end, cookie, kq, nops, tab, buf, ring, ridx, want, got>>
 
 \* Consumer (free): from the buffer, or the rendezvous with a parked sender
 Recv == /\ \/ /\ evq # <<>> /\ got' = Append(got, Head(evq)) /\ evq' = Tail(evq) /\ UNCHANGED out
            \/ /\ evq = <<>> /\ out # NoEv /\ Cap = 0 /\ got' = Append(got, out) /\ out' = NoEv /\ UNCHANGED evq
-        /\ UNCHANGED <<present, fmark, cookie, kq, nops, tab, buf, ring, ridx, want>>
+        /\ UNCHANGED <<present, fmark, w2end, cookie, kq, nops, tab, buf, ring, ridx, want>>
 
 Next == Fs \/ Read \/ Handle \/ Send \/ Recv
 Spec == Init /\ [][Next]_vars
